@@ -362,7 +362,7 @@ def build(desc) -> Any:
     if k == "fpvec":
         return se.FixedPointVector3U16(d[1], d[2], signed=d[3])
     if k == "packedquat":
-        return se.PackedQuat(COORD[d[1]][0])
+        return se.PackedQuat(build(_pq_child(d)))
     if k == "null":
         return se.Null
     if k == "qfloat":
@@ -567,10 +567,17 @@ CSTR_TEXT = {"utf8": ["€", "\U0001d532x", "ÿ"], "latin1": ["café", "ÿé", "
              "ascii": ["~x"], "utf-16-le": ["é€", "\U0001d532", "ab"]}
 
 
+def _pq_child(d):
+    """PackedQuat child descriptor; the legacy string form names a float coordinate class."""
+    return (d[1],) if isinstance(d[1], str) else d[1]
+
+
 def _quat_rows(kind):
     if kind == "vector3":
-        return [(0.0, 0.0, 0.0), (0.5, 0.5, 0.5), (1.0, 0.0, 0.0), (-0.5, 0.25, 0.0)]
-    return [(0.0, 0.0, 0.0, 1.0), (0.5, 0.5, 0.5, 0.5), (1.0, 0.0, 0.0, 0.0), (-0.5, 0.25, 0.0, 0.75)]
+        return [(0.0, 0.0, 0.0), (0.5, 0.5, 0.5), (1.0, 0.0, 0.0), (-0.5, 0.25, 0.0), (-0.5, -0.5, -0.5), (0.0, -1.0, 0.0)]
+    # 4-component children store W on the wire: W > 0, W == 0 (+0.0 and -0.0) and W < 0
+    return [(0.0, 0.0, 0.0, 1.0), (0.5, 0.5, 0.5, 0.5), (1.0, 0.0, 0.0, 0.0), (-0.5, 0.25, 0.0, 0.75),
+            (0.0, 0.0, 0.0, -1.0), (0.5, 0.5, -0.5, -0.5), (-0.5, 0.25, 0.0, -0.75), (0.0, 1.0, 0.0, -0.0), (0.25, 0.0, 0.0, -0.125)]
 
 
 def _closed(d) -> bool:
@@ -689,8 +696,11 @@ def _dom_raw(d, env) -> List[Val]:
         spec = build(d)
         alpha = PRIMS[prim][1]
         out, seen = [], set()
-        for r in range(len(alpha)):
-            wire = [alpha[(r + 2 * i) % len(alpha)] for i in range(n)]
+        top = PRIM_RANGE[prim][1]
+        mid = [top // 2, top // 2 + 1, top * 3 // 8, top * 9 // 16, top * 5 // 8, top * 7 // 16]   # around the middle of the range
+        rows = [[alpha[(r + 2 * i) % len(alpha)] for i in range(n)] for r in range(len(alpha))]
+        rows += [[mid[(r + i) % len(mid)] for i in range(n)] for r in (0, 2, 3)]   # small components (inside the unit ball for -1..1)
+        for wire in rows:
             comps = [spec._elem_specs[i].decode(w, None) for i, w in enumerate(wire)]
             rich = scls.COORD_CLS(*comps)
             key = repr(norm(rich))
@@ -708,7 +718,10 @@ def _dom_raw(d, env) -> List[Val]:
             out.append(Val(rich, tuple(rich), _cat(*[_both("U16", w) for w in wire])))
         return out
     if k == "packedquat":
-        return _adapt(build(d), _coord_vals(d[1], _quat_rows(d[1])))
+        child = _pq_child(d)
+        # float children: hand-picked unit-ball rows on both sides of W = 0; quantised children: wire-first (their U16/U8
+        # alphabets put every component, W included, below, at and above the zero median)
+        return _adapt(build(d), _coord_vals(child[0], _quat_rows(child[0])) if child[0] in COORD else _dom(child, env))
     if k == "null":
         return [Val(None, None, EMPTY)]
     if k == "fixedpoint":
@@ -968,7 +981,7 @@ _LABEL = {"prim": lambda d: d[1], "bytearray": lambda d: f"ByteArray({d[1]})", "
           "qvecs": lambda d: f"{d[1]}(component_scales)",
           "uuid": lambda d: "UUID", "vector3": lambda d: "Vector3", "vector4": lambda d: "Vector4", "vector3d": lambda d: "Vector3D",
           "qvec": lambda d: f"{d[1]}({d[2]},{d[3]})", "fpvec": lambda d: f"FixedPointVector3U16({d[1]},{d[2]},{d[3]})",
-          "packedquat": lambda d: f"PackedQuat({d[1]})", "null": lambda d: "Null",
+          "packedquat": lambda d: f"PackedQuat({d[1] if isinstance(d[1], str) else label(d[1])})", "null": lambda d: "Null",
           "qfloat": lambda d: f"QuantizedFloat({d[1]},{d[2]},{d[3]}{',zero_median=%s' % d[4] if len(d) > 4 else ''})", "fixedpoint": lambda d: f"FixedPoint({d[1]},{d[2]},{d[3]},{d[4]})",
           "intenum": lambda d: f"IntEnum({d[1]}{',strict' if d[2] else ''})", "intflag": lambda d: "IntFlag(%s)" % ",".join(str(x) for x in d[1:]),
           "bitfield": lambda d: f"BitField({d[1]},{d[2]}{'' if d[3] else ',noshift'})", "bfdc": lambda d: f"BitfieldDataclass({d[1]}{',' + d[2] if len(d) > 2 else ''})",
@@ -1166,6 +1179,10 @@ LEAVES: List[tuple] = (
        ("qvec", "Vector3U16", -1.0, 1.0), ("qvec", "Vector2U16", 0.0, 1.0), ("qvec", "Vector4U16", -64.0, 64.0),
        ("qvec", "Vector3U8", -1.0, 1.0), ("qvec", "Vector4U8", 0.0, 1.0),
        ("fpvec", 8, 7, True), ("fpvec", 8, 8, False), ("packedquat", "vector3"), ("packedquat", "vector4"), ("null",),
+       # PackedQuat over every child kind the library uses (templates.py / llanim.py) + the remaining quantised 4-vectors
+       ("packedquat", ("qvec", "Vector4U16", -1.0, 1.0)), ("packedquat", ("qvec", "Vector4U8", -1.0, 1.0)),
+       ("packedquat", ("qvec", "Vector3U16", -1.0, 1.0)), ("packedquat", ("qvec", "Vector3U16", -5.0, 5.0)),
+       ("packedquat", ("qvec", "Vector3U8", -1.0, 1.0)), ("packedquat", ("qvec", "Vector4U16", -64.0, 64.0)),
        ("qfloat", "U8", 0.0, 1.0), ("qfloat", "U8", -1.0, 1.0), ("qfloat", "S8", -1.0, 1.0), ("qfloat", "U16", -2.0, 1.0),
        ("qfloat", "S16", -1.0, 1.0), ("qfloat", "U16", -64.0, 64.0),
        ("fixedpoint", "U16", 8, 8, False), ("fixedpoint", "U16", 8, 7, True), ("fixedpoint", "U8", 4, 4, False),
